@@ -357,8 +357,12 @@ def check_rules(ctx):
     ind = arr_param('ind', length=J + C(1))
     r, sev, _, sfi = runf(ctx.prog, SAU + 'sum_over_indices', pos=[a, ind])
     r = need_num(ctx, 'C17.5', 'sum_over_indices', r, sfi)
+    # element j of the documented result: the sum runs over its own (bound) index, j is the element index - built with j as a separate symbol first,
+    # then renamed, so that the two are not confused
+    jj = sym.sym('$outer_j')
+    lo_j, hi_j = ind.at(jj).r, ind.at(jj + C(1)).r
+    want = sym.subst(sym.mk_sum(a.at(sym.idx() + lo_j).r, hi_j - lo_j), {next(iter(jj.atoms())): sym.idx()})
     lo, hi = ind.at(sym.idx()).r, ind.at(sym.idx() + C(1)).r
-    want = sym.mk_sum(a.at(sym.idx() + lo).r, hi - lo)
     from .common import foreign_heads
     fh = foreign_heads(r, Num(want, J))
     if not (r.length is not None and r.r == want and same_extent(r.length, J)) and fh:
